@@ -430,6 +430,21 @@ func (r *arRun) checkReceive(send *nom.AccountBlock, res *vm.ContractExecution, 
 		if (res.ReturnedError != nil) {
 			r.fail("C09: status 1 with method error %v: %s", res.ReturnedError, r.describeSend(send))
 		}
+		// "applies the call": a call that carried an amount and is answered with status 1 keeps the amount. If the receive wrote
+		// NOTHING into the contract's storage and sent nothing on, the call was neither applied nor refunded: the sender lost the
+		// amount for no effect (a receive that swallows its own refusal reason and returns nil, nil). Judged for every method but
+		// the pure donations (arKeepsAmountWithoutEffect), whose whole documented effect is the credit of the amount.
+		if send.Amount.Sign() > 0 && storageSame && len(b.DescendantBlocks) == 0 {
+			if arKeepsAmountWithoutEffect(label) {
+				c.Hit("applied-amount-without-storage-write (donation)")
+			} else {
+				verdict = "violation" // (the Lean judge of the ar-recv line says the same: Driver/Abi.lean pureArRecv)
+				r.fail("C09: accepted call with amount %s %s was answered with status 1 (applied) but the receive wrote nothing into the storage of the %s contract and sent nothing: neither applied nor refunded, the sender lost the amount: %s",
+					amt(send.Amount), tokName(send.TokenStandard), arContractName(send.ToAddress), r.describeSend(send))
+			}
+		} else if send.Amount.Sign() > 0 {
+			c.Hit("applied-amount-with-effect")
+		}
 	case 2:
 		c.Hit(label + " refunded")
 		c.Hit("outcome-refunded")
@@ -476,6 +491,15 @@ func (r *arRun) checkReceive(send *nom.AccountBlock, res *vm.ContractExecution, 
 		same = "changed"
 	}
 	c.Emit("ar-recv %s %s %s %s %d %s %d%s | %s", label, addrName(send.Address), tokName(send.TokenStandard), amt(send.Amount), status, same, len(b.DescendantBlocks), sb.String(), verdict)
+}
+
+// arKeepsAmountWithoutEffect: the method KINDS whose successful receive legitimately leaves the contract's storage untouched
+// although the call carried an amount. One kind only: Donate of the common ABI (accelerator, liquidity) - DonateMethod's
+// ValidateSendBlock demands a non-zero amount and its ReceiveBlock is documented by its own log line "received donation":
+// the credit of the amount to the contract's balance (not part of Storage()) IS the effect. Every other method that may
+// carry an amount records something when it succeeds (an entry, a deposit, a supply, a request, a project / phase).
+func arKeepsAmountWithoutEffect(label string) bool {
+	return strings.HasSuffix(label, "."+definition.DonateMethodName)
 }
 
 // afterMomentum: every accepted send confirmed so far must have been answered by exactly one receive.
@@ -691,7 +715,11 @@ func newArNode(epoch time.Duration) *Node {
 func init() {
 	register("autoreceive", func(c *Ctx) {
 		if sc := c.Args["scenario"]; sc != "" { // only the named scenario (replay / debugging)
-			autoreceiveHistory(c, 2, sc)
+			id := 2
+			if v, ok := c.Args["id"]; ok {
+				fmt.Sscan(v, &id)
+			}
+			autoreceiveHistory(c, id, sc)
 			return
 		}
 		if c.Args["mode"] == "conservation" {
@@ -736,6 +764,19 @@ func init() {
 		// reward epochs with degenerate participants (s_autoreceive_degenerate.go), compressed calendar; regimes 3 and 0..2 in turn
 		autoreceiveHistory(c, 3, "degenerate-epochs")
 		autoreceiveHistory(c, int(c.Seed%3), "degenerate-epochs")
+		// s_autoreceive_admin.go: every combination of lengths 0..3 of the slice arguments of every method that has any; the
+		// security state machine of liquidity and bridge (guardian sets growing / shrinking, emergency, votes, administrator
+		// changes); calls that become invalid through chain time at receive time (accelerator life time, voting period, HTLC
+		// expiry, halts) - the last one under all sporks and with the periodic Update calls running (odd id)
+		autoreceiveHistory(c, 2, "slice-lengths")
+		autoreceiveHistory(c, 2, "admin-machine")
+		autoreceiveHistory(c, 3, "time-regimes")
+		if c.Tier == "thorough" {
+			autoreceiveHistory(c, 3, "slice-lengths")
+			autoreceiveHistory(c, 3, "admin-machine")
+			autoreceiveHistory(c, 1, "time-regimes")
+			autoreceiveHistory(c, 6, "time-regimes") // regime 2, Update calls too recent
+		}
 		if c.Tier == "thorough" {
 			for id := 0; id < 3; id++ {
 				autoreceiveHistory(c, id, "int-sweep:0/1")
@@ -764,7 +805,9 @@ func autoreceiveHistory(c *Ctx, id int, scenario string) {
 	origAdmin := constants.InitialBridgeAdministrator
 	origAdminDelay, origSoftDelay, origUnhalt, origGuardians := constants.MinAdministratorDelay, constants.MinSoftDelay, constants.MinUnhaltDurationInMomentums, constants.MinGuardians
 	origUpdate, origFuseExp := constants.UpdateMinNumMomentums, constants.FuseExpiration
+	origAccDuration, origVotingPeriod := constants.AcceleratorDuration, constants.AcceleratorProjectVotingPeriod // shortened by the scenario time-regimes
 	defer func() {
+		constants.AcceleratorDuration, constants.AcceleratorProjectVotingPeriod = origAccDuration, origVotingPeriod
 		constants.FuseExpiration = origFuseExp
 		verifier.ReceiverMismatchEnforcementHeight = origGate
 		constants.InitialBridgeAdministrator = origAdmin
